@@ -397,9 +397,12 @@ def stage_lines(rep, rng, n):
         rep.count('flagsT:chain length %d' % min(len(chain), 3))
         if got != want_s:
             own_s = _stringify(dict(pr['kinds'][X][1]).get(t, []), pr)
-            nobs = lambda ws: None if ws is None else [w.replace('\\', '') for w in ws]
-            # the open finding: a ; among the own words of the step, and only backslashes differ
-            classes = ('target-flag-semicolon',) if (any(';' in w for w in own_s) and nobs(got) == nobs(want_s)) else ()
+            # the open finding: a ; among the own words of the step, and the step sees exactly the words the finding predicts
+            # (global words unchanged, the own ones as c06.semicolon_predict says)
+            from . import c06
+            classes = ('target-flag-semicolon',) if (
+                any(';' in w for w in own_s) and got is not None and
+                got == want_s[:len(want_s) - len(own_s)] + c06.semicolon_predict(own_s)) else ()
             if classes:
                 tknown += 1
             else:
